@@ -218,7 +218,6 @@ spec fn table_of(ts: Seq<Transition>, n: int, tab: Map<u32, Map<InpId, u32>>) ->
     && (forall|q: u32| #[trigger] tab.contains_key(q) ==> exists|m: int| 0 <= m < n && m < ts.len() && (#[trigger] ts[m]).from == q)
 }
 
-spec fn cell_in(tab: Map<u32, Map<InpId, u32>>, q: u32, i: InpId) -> bool { tab.contains_key(q) && tab[q].contains_key(i) }
 
 spec fn tr_is(t: Transition, q: u32, i: InpId, to: u32) -> bool { t.from == q && t.input == i && t.to == to }
 
